@@ -494,7 +494,7 @@ func cmdCheck(args []string) int {
 				}
 			}
 			j := NewJob(P, *prop, f.Name, h.Dir, fn, cfg)
-			j.NoStub = d["nostub"] != "" // this harness runs the real functions that other harnesses of the property stub
+			j.NoStub = d["nostub"] // this harness runs the real functions that other harnesses of the property stub ("1": all, else: those whose name contains the value)
 			jobs = append(jobs, j)
 		}
 	}
